@@ -159,6 +159,14 @@ CLAIMED["C11"] = dict(cat="other", technique="structural analysis of the HDF5 hy
         "same phase space as an uninterrupted one is a relation between two executions and is NOT decided.",
    note="HDF5 C++ API argument order is part of the trusted base. The definite-assignment defect of ps_size for other ranks is reported under C17.",
    ref="DESIGN.md §3 C11")
+CLAIMED["C15"] = dict(cat="other", technique="clamp-on-every-path analysis over the CFGs of all applyTo overriders reachable from main (call-graph resolved), symbolic direction/fixed-point analysis of the tracking formulas",
+   text="Decides for every map class main can instantiate and every tracking model: each coordinate an applyTo override assigns is, on every path to the exit, last assigned through "
+        "max(1, min(., size-1)) of its own axis, and initial coordinates enter only through the clamping PhaseSpace::x()/y(); hence tracked coordinates stay inside the grid where the "
+        "conversion to physical units is defined. The particle is displaced by -interp(offset) with linear weights (1-f, f) along the perpendicular coordinate while the grid takes its "
+        "content from destination+offset: same direction. The noise-free fixed point of the stochastic model is the zero-energy bin with rate e1; the deterministic model moves by the first "
+        "stencil moment. Numerical coincidence of blob centroid and particle, and ensemble statistics, are NOT decided.",
+   note="One genuine defect repaired (F9: stochastic model unclamped and damping towards grid row 0). NaN coordinates are outside the statement.",
+   ref="DESIGN.md §3 C15")
 NOT_YET = "check not built yet in this round (static rule designed in DESIGN.md §3, not implemented)"
 NA = {}
 
